@@ -106,6 +106,7 @@ pub fn trait_default(d: &Desc) -> MVal {
             Sc::Unit => MVal::Unit,
         },
         Desc::Option(_) => MVal::None,
+        Desc::Phantom => MVal::Unit,
         Desc::Vec(_) => MVal::Seq(vec![]),
         Desc::HashSet(_) | Desc::BTreeSet(_) => MVal::Set(vec![]),
         Desc::HashMap(..) | Desc::BTreeMap(..) => MVal::Map(vec![]),
@@ -340,6 +341,7 @@ impl<'a> Model<'a> {
                     None
                 }
             }
+            Desc::Phantom => Some(MVal::Unit),
             Desc::Named(i) => self.named(*i, doc, loc, out),
         }
     }
